@@ -24,6 +24,43 @@ CLAIMS = {
         ref="7/C02",
         note=KINDL_NOTE,
     ),
+    "C03": dict(
+        technique="symbolic execution of solver.py on affine forms (+ phase variables for a continuous tower) + z3 (QF_LRA) queries",
+        text="Bounded symbolic check: per scenario z3 decides for ALL source fields and backgrounds that the domain-mean flux at every "
+        "level is the mean source; that the mean concentration is 1*background - R*mean source with R found by the solver inside the "
+        "per-layer-group Riemann bracket of int dz/Kz; that footprint weights sum to one for a CONTINUOUS symbolic tower position; and "
+        "that halo=h equals explicit zero padding + crop in dispersion and footprint mode (all six halo classes).",
+        ref="7/C03", note=KINDL_NOTE + " Any resistance quadrature between left and right Riemann sums is accepted."),
+    "C04": dict(
+        technique="symbolic execution of solver.py on affine forms + z3 (QF_LRA) queries; NonAffine events replayed",
+        text="Bounded symbolic check: the solver run on affine forms in every source entry and the background stays affine with a "
+        "zero constant term (= linear), the flux has no background dependence, the background is a uniform offset of exactly one, "
+        "and footprint-mode results do not depend on the source values; numerical and analytic mode; all fields, not samples.",
+        ref="7/C04", note=KINDL_NOTE),
+    "C06": dict(
+        technique="symbolic execution of solver.py on affine forms (+ phase variables) + z3 (QF_LRA) queries",
+        text="Bounded symbolic check: for all sources, z3 decides that rolling the source rolls the fields (5 shifts incl. wrap), that "
+        "moving a CONTINUOUS symbolic tower by whole cells rolls the footprint, that the footprint is the point reflection of the "
+        "unit-source response (symbolic amplitude), and that dispersion-mode re-centring is the roll putting the point at the centre.",
+        ref="7/C06", note=KINDL_NOTE),
+    "C07": dict(
+        technique="symbolic execution of solver.py on affine forms + z3 (QF_LRA) spectral form-equality queries",
+        text="Bounded symbolic check: mirrored / transposed problems give mirrored / transposed fields for all sources (compared mode "
+        "by mode with the Nyquist components removed, dispersion incl. re-centred, and footprint mode); similarity under length and "
+        "speed scalings for factors 1e-3..1e3.",
+        ref="7/C07", note=KINDL_NOTE),
+    "C10": dict(
+        technique="symbolic execution of solver.py on affine forms + z3 (QF_LRA) queries; exhaustive level orderings",
+        text="Bounded symbolic check, exhaustive over every ordered selection of distinct levels (up to 4/5 levels of a 4-6 node grid, "
+        "plus the real top node), list/ndarray/scalar arguments, both modes, numerical and analytic: z3 decides that slice k is the "
+        "single-level solution for levels[k] and slice levels[k] of the full column, for all sources; heights checked.",
+        ref="7/C10", note=KINDL_NOTE + " Tuples are not asserted (z[levels] rejects them; the property names scalar/list/array)."),
+    "C11": dict(
+        technique="symbolic execution of solver.py on affine forms + z3 (QF_LRA) queries over an exhaustive small-size sweep",
+        text="Bounded symbolic check over every grid 1..6 (7 thorough) squared incl. odd/one-wide, three halo classes, six even mode "
+        "requests, both modes: raise-or-correct; shape and coordinates; registration via the reciprocity identity and the all-modes "
+        "surface identity; exact low-pass behaviour in Fourier space; clamp equivalence - all for every source field.",
+        ref="7/C11", note=KINDL_NOTE + " The cut-off row/column and the mixed clamp case are not asserted."),
 }
 
 PENDING = "check not built yet in this round (work in progress; see DESIGN.md section 7 for the plan)"
